@@ -281,6 +281,34 @@ func c10Build() *c10World {
 		}
 		v.VerifyExchange(ex)
 	}})
+	// ... and the vouched subset's authority INDEX (attacker-controlled, read from the signatures section as a CBOR
+	// unsigned integer) through every head-width and sign boundary, against 0..2 authorities
+	authIdx := []uint64{0, 1, 2, 23, 24, 255, 256, 65535, 65536, 1<<31 - 1, 1 << 31, 1<<32 - 1, 1 << 32, 1<<63 - 1, 1 << 63, 1<<63 + 1, 1<<64 - 2, 1<<64 - 1}
+	w.targets = append(w.targets, &c10Target{name: "signature.NewVerifier(vouched subset naming authority #i)",
+		gen: func(c *mc.Ctx) ([]byte, string) {
+			vi := c.Free(len(authIdx), "authority index")
+			na := c.Free(3, "authorities")
+			return []byte{byte(vi), byte(na)}, fmt.Sprintf("authority=%d of %d", authIdx[vi], na)
+		},
+		run: func(in []byte) {
+			msg := append(bytes.Repeat([]byte{0x20}, 64), []byte(bversion.VersionB2.SignatureContextString())...)
+			msg = append(msg, 0)
+			msg = append(msg, subset...)
+			sig, err := alg.Sign(msg)
+			if err != nil {
+				panic(err)
+			}
+			var auths []*certurl.AugmentedCertificate
+			for i := 0; i < int(in[1]); i++ {
+				auths = append(auths, &certurl.AugmentedCertificate{Cert: fixtures.A.Leaf, OCSPResponse: []byte("o")})
+			}
+			sigs := &bundle.Signatures{Authorities: auths, VouchedSubsets: []*bundle.VouchedSubset{{Authority: authIdx[in[0]], Sig: sig, Signed: subset}}}
+			v, err := signature.NewVerifier(sigs, c18Date.Add(time.Minute), bversion.VersionB2)
+			if err != nil {
+				return
+			}
+			v.VerifyExchange(ex)
+		}})
 	// --- MI streams
 	var miArts []*c10Artifact
 	miDigest := map[string]string{}
